@@ -112,7 +112,7 @@ let blackbox (s : sc) =
   !fails
 
 (* ---------------------------------------------------------------- white-box acceptor (one store) *)
-let whitebox (scid : string) (label : string) (evl : string list list) =
+let whitebox (scid : string) (label : string) (cfg_limit : int) (evl : string list list) =
   let evs = Array.of_list evl in
   let n_ev = Array.length evs in
   (* look-ahead tables: in which ROUND a caller is built, what a caller returns *)
@@ -125,6 +125,9 @@ let whitebox (scid : string) (label : string) (evl : string list list) =
     | "SB" :: _ :: _ :: _ :: pairs :: _ -> List.iter (fun (id, _) -> maxid := max !maxid id) (parse_pairs pairs)
     | "RET" :: c :: kind :: _ -> if not (Hashtbl.mem ret_kind (ios c)) then Hashtbl.replace ret_kind (ios c) kind
     | _ -> ()) evs;
+  (* calls that the watchdog had to give up on: their final "ctx" return is the harness's own cancellation *)
+  let hung = Hashtbl.create 8 in
+  Array.iter (fun e -> match e with "HANG" :: c :: _ -> Hashtbl.replace hung (ios c) true | _ -> ()) evs;
   let failpanic = Array.exists (fun e -> match e with "INJ" :: "failpanic" :: _ -> true | _ -> false) evs in
   let unk = Hashtbl.create 8 in
   let map_id i = if i <= !maxid then i else
@@ -190,15 +193,22 @@ let whitebox (scid : string) (label : string) (evl : string list list) =
         List.iter (fun c -> let c = int_of_nat c in
           if not (Hashtbl.mem keep c) && not (e_canceled (entry c)) then begin
             match (try abort_of_kind (Hashtbl.find ret_kind c) with Not_found -> None) with
-            | Some k when not (k = EClosed && is_async c) -> do_abort c k; Hashtbl.replace pre_aborted c true
-            | _ -> raise (Reject ("builder", Printf.sprintf "caller %d left the builder without being built although its call was not given up" c))
+            | Some k when not (k = EClosed && is_async c) && not (Hashtbl.mem hung c) -> do_abort c k; Hashtbl.replace pre_aborted c true
+            | _ -> raise (Reject ("builder", Printf.sprintf "caller %d left the builder without being built although its call was not given up: an entry popped by buildWithLimit is lost (never sent, never failed, not queued any more)" c))
           end) (inb !xs);
         apply "builder" XClean;
         let takes = List.map (fun (_, c, _) -> nat c) built in
-        (match xstep !xs (XBuildRound takes) with
+        (* unbounded limit: buildWithLimit pops everything.  A finite limit: available() at the time of the build cannot
+           be read without a race, so only the weakest quota (Some 0) is demanded; what IS checked exactly is that
+           nothing popped is lost (every entry that left the builder was built or had been given up) *)
+        let lim = if cfg_limit <= 0 then None else Some O in
+        (match xstep !xs (XBuildRound (lim, takes)) with
          | Some x' -> xs := x'; incr steps; bump "step:XBuildRound" 1
          | None ->
-             if not (round_ok (pri !xs) (inb !xs) takes) then
+             if not (quota_ok lim (ent (st ())) (pri !xs) (inb !xs) takes) then
+               raise (Reject ("builder", Printf.sprintf "round building callers [%s] leaves entries in the builder ([%s]) although the concurrency limit is unbounded"
+                                (ids_str (List.map (fun (_, c, _) -> c) built)) (ids_str (List.map int_of_nat (inb !xs)))))
+             else if not (round_ok (pri !xs) (inb !xs) takes) then
                raise (Reject ("builder", Printf.sprintf "round building callers [%s] is not a legal buildWithLimit round: an entry was built that is not in the builder, or an entry of high / higher priority stayed behind (builder holds [%s])"
                                 (ids_str (List.map (fun (_, c, _) -> c) built)) (ids_str (List.map int_of_nat (inb !xs)))))
              else raise (Reject ("ids_fresh", "a built entry is cancelled / not queued in the model, or the id source went backwards")));
@@ -379,7 +389,7 @@ let () =
     if conns_of s.spec = 1 && not newpool && not (nobatch_of s.spec) && cls <> "asyncclose" then begin
       let np = pools_of s.spec in
       for k = 0 to np - 1 do
-        ignore (whitebox s.id (if np > 1 then Printf.sprintf "@%d" k else "") (if np > 1 then events_of_pool s k else s.evs))
+        ignore (whitebox s.id (if np > 1 then Printf.sprintf "@%d" k else "") (spec_int "limit" s.spec 0) (if np > 1 then events_of_pool s k else s.evs))
       done
     end else bump "blackbox_only" 1;
     let kinds = String.concat "" (List.map (fun e -> match e with
